@@ -11,6 +11,8 @@ import (
 	dbsql "database/sql"
 	"fmt"
 	"strings"
+	"sync"
+	"time"
 
 	"github.com/bitcoin-sv/block-headers-service/verifharness/lib"
 )
@@ -160,9 +162,16 @@ func c05CommitBlocked(c *Ctx) error {
 		return err
 	}
 	cur.Next() // the cursor stays open: a shared lock is held
+	// The reader goes away 7.5 s later (or when the submission has been answered): SQLite's busy timeout is 5 s, so
+	// the FIRST write transaction of the submission (the demotion of the old branch) fails at COMMIT, and whatever
+	// the service attempts after that finds the table free again — a failure that is swallowed there shows as a
+	// half-done switch.
+	var once sync.Once
+	release := func() { once.Do(func() { cur.Close(); rd.Close() }) }
+	timer := time.AfterFunc(7500*time.Millisecond, release)
 	out := ci.Op("add " + nodes[len(nodes)-1].Hdr.Hex())
-	cur.Close()
-	rd.Close()
+	timer.Stop()
+	release()
 	c.R.OracleChecked++
 	c.R.Case("reorganising submission whose first COMMIT is blocked by a reader", true)
 	c.R.Count("submission with a COMMIT-time storage failure (reader holds the table)", 1)
